@@ -427,5 +427,5 @@ def run(ctx, tier):
             '(delete: KeyValueMissing / IncompatibleValue, get_bucket: BucketMissing / IncompatibleValue, create_bucket: BucketExists ..., and none of the kinds it must never report); '
             '(counter) the insertion counter moves by +1 only on the not-found arm of the tree search; plus, under C01\'s name, the structural clauses of the properties the '
             'equivalence is built on: overlay routing and registration, exact-match flag, cursor / range / filter clauses, serialiser and reader tables, page kinds, run lengths, '
-            'header pointers, error atomicity of mutators, the writable guard, full reload of the free list.'),
+            'create_bucket cannot succeed on the found arm of the search; a flag gating the merge pass is raised by every element-removing function; a root moved by the rebalance step is materialised; a right-merge refreshes the separator; growth proved sufficient; debug assertions are pure; header pointers, error atomicity of mutators, the writable guard, full reload of the free list.'),
         assumptions=['the error table in rules/c01.py (taken from the documented behaviour of the public API)'])
